@@ -222,8 +222,6 @@ class Prov:
     def local(self, l):
         if l in self._memo:
             return self._memo[l]
-        if l in self._active:
-            return ("local", l)
         fn = self.fn
         ds = self.defs.get(l, [])
         if 1 <= l <= fn.argc and not ds:
@@ -234,7 +232,13 @@ class Prov:
             e = ("local", l)
             self._memo[l] = e
             return e
-        self._active.add(l)
+        multi = len(ds) > 1 or (1 <= l <= fn.argc)
+        if multi:
+            # cycles in the def-use graph always pass through a multiply-defined local: break there,
+            # so that the result does not depend on where the query entered the cycle
+            if l in self._active:
+                return ("local", l)
+            self._active.add(l)
         try:
             es = []
             for d in ds:
@@ -244,8 +248,10 @@ class Prov:
             es = tuple(sorted(set(es), key=repr))
             e = es[0] if len(es) == 1 else ("phi", es)
         finally:
-            self._active.discard(l)
-        self._memo[l] = e
+            if multi:
+                self._active.discard(l)
+        if not self._active:
+            self._memo[l] = e
         return e
 
     def def_expr(self, d):
